@@ -33,8 +33,9 @@ GInit ==
 \* neighbours around a 19-digit composite key (consecutive integers that a float64 cannot tell apart).  Lookup
 \* is by exact identifier whatever the rendering; one rendering per behaviour, spread over the behaviours
 \* (the harness replays the lookup family under both).
-IdRenderings == <<"small", "wide">>
-IdRendering == IdRenderings[((Len(added) + Len(hist) + start) % 2) + 1]
+\* ("zero_based": the identifiers 1, 2, 3 ... are rendered 0, 1, 2 ... - the flight identifier 0 is one like any other)
+IdRenderings == <<"small", "wide", "zero_based">>
+IdRendering == IdRenderings[((Len(added) + Len(hist) + start) % 3) + 1]
 \* How the sessions of a behaviour are started: through the factory methods (create / open / append) or through the
 \* public constructor with the mode given as FileMode member or as its plain string value; one form per behaviour.
 \* (The second form also leaves its sessions the way a `with` block does, the third hands indices and identifiers
